@@ -175,7 +175,8 @@ def run_check(prop, tier):
     leak = Counter()
     for d in viol_runs:
         v = d["violation"]
-        key = (v["oracle"], json.dumps(v.get("culprit"), sort_keys=True, default=repr)[:80])
+        c = v.get("culprit")
+        key = (v["oracle"], c.get("op") if isinstance(c, dict) else None, engine.subclass_of(v) if hasattr(engine, "subclass_of") else None)
         if key in seen_classes or len(seen_classes) >= int(os.environ.get("VERIF_MAX_REPORTS", 6)):
             continue
         seen_classes.add(key)
